@@ -89,6 +89,12 @@ func (c *CommandProcessor) Process(data []byte, db *sql.SwappableDB) (*proto.Com
 		}
 		fd.Close()
 
+		// Check the data is a database SQLite can read before touching the existing
+		// database, as the swap closes and removes it first.
+		if err := sql.CheckSQLiteFile(fd.Name()); err != nil {
+			return cmd, false, &fsmGenericResponse{error: fmt.Errorf("invalid SQLite data: %s", err)}
+		}
+
 		// Swap the underlying database to the new one.
 		if err := db.Swap(fd.Name(), db.FKEnabled(), db.WALEnabled()); err != nil {
 			return cmd, false, &fsmGenericResponse{error: fmt.Errorf("error swapping databases: %s", err)}
@@ -130,6 +136,10 @@ func (c *CommandProcessor) Process(data []byte, db *sql.SwappableDB) (*proto.Com
 				// this load should be ignored.
 				if !sql.IsValidSQLiteFile(path) {
 					c.logger.Printf("invalid chunked database file - ignoring")
+					return cmd, false, &fsmGenericResponse{error: fmt.Errorf("invalid chunked database file - ignoring")}
+				}
+				if err := sql.CheckSQLiteFile(path); err != nil {
+					c.logger.Printf("invalid chunked database file (%s) - ignoring", err)
 					return cmd, false, &fsmGenericResponse{error: fmt.Errorf("invalid chunked database file - ignoring")}
 				}
 				if err := db.Swap(path, db.FKEnabled(), db.WALEnabled()); err != nil {
